@@ -32,7 +32,8 @@ from hypothesis import strategies as st
 from vlib.runner import Outcome, Inconclusive
 
 ID = "C18"
-RULE = ("Hypothesis op lists (<=34 quick / <=70 thorough ops, after a warm-up block of 2-6 valid constructions) "
+RULE = ("Hypothesis op lists (a warm-up block of one sub-map + 2-6 valid constructions, then <=28 quick / <=64 "
+        "thorough free ops) "
         "over a parameter tree of all eight classes (+ the plain InputParameter base class) with keys from a "
         "5-key pool (collisions frequent, children may carry the root's key), display priorities from a tie-rich "
         "int/float pool, inclusive int/float/SI bounds incl. +-inf and float bounds for ints, option lists with "
@@ -100,7 +101,7 @@ WRONG = [["n"], ["s", "x"], ["s", "5"], ["i", 7], ["f", _fl(2.5)], ["b", True], 
 def budget(tier):
     if tier == "quick":
         return {"examples": 4000, "shards": 16}
-    return {"examples": 200000, "shards": 16}
+    return {"examples": 150000, "shards": 16}
 
 
 # ------------------------------------------------------------------------------------------ strategy
